@@ -181,6 +181,15 @@ def loading_case(rng, tier):
     # the shipped config classes are registered from the start
     import tickit.core.components.system_component, tickit.devices.iobox, tickit.devices.sink, tickit.devices.source  # noqa
     pkg, d, classes = make_library(rng)
+    # half of the cases run with debug logging switched on (records are made and thrown away): what is loaded and built
+    # must not depend on the logging level
+    import logging
+    lg = logging.getLogger("tickit")
+    if not any(isinstance(h, logging.NullHandler) for h in lg.handlers):
+        lg.addHandler(logging.NullHandler())
+    lg.propagate = False
+    debug = rng.random() < 0.5
+    lg.setLevel(logging.DEBUG if debug else logging.WARNING)
     names = []
     entries = gen_entries(rng, classes, rng.choice([0, 1, 2, 3]), names)
     bad_tag = rng.random() < 0.15
